@@ -110,6 +110,10 @@ def solve_text(text, timeout_s=10, want_model=True, solvers=('z3', 'cvc5'),
                 [CVC5_CLI, '--strings-exp', '--strings-fmf',
                  '--produce-models',
                  '--tlimit=%d' % int(timeout_s * 1000), path])
+        if 'cegar' in solvers:
+            procs['z3-5.1-cegar'] = _spawn(
+                [PY_VT, os.path.join(HERE, 'cegar_worker.py'), path,
+                 str(int(timeout_s))])
         if 'cvc5new' in solvers:
             procs['cvc5-1.4'] = _spawn(
                 [PY_VT, os.path.join(HERE, 'cvc5_run.py'), path,
